@@ -48,10 +48,11 @@ def reported_case(rng):
     from keras_tuner.tuners import randomsearch
     warnings.filterwarnings("ignore")
     direction = rng.choice(["min", "max"]); mx = direction == "max"
+    oname = rng.choice(OBJ_NAMES)       # the explicit direction wins over whatever Keras would infer from the name
     hps = hpm.HyperParameters(); hps.Int("x", 0, 10 ** 6)
     d = tempfile.mkdtemp(prefix="ktv04_")
     try:
-        o = randomsearch.RandomSearchOracle(objective=kt.Objective("score", direction), max_trials=20, hyperparameters=hps, seed=rng.randint(1, 10 ** 6))
+        o = randomsearch.RandomSearchOracle(objective=kt.Objective(oname, direction), max_trials=20, hyperparameters=hps, seed=rng.randint(1, 10 ** 6))
         o._set_project_dir(d, "p"); o._display.verbose = 0
         want = {}
         for i in range(rng.randint(2, 6)):
@@ -59,14 +60,14 @@ def reported_case(rng):
             steps = {}
             for _ in range(rng.randint(1, 6)):
                 st = rng.choice([0, 0, 1, 2]); v = float(60 * rng.randint(-4, 4))
-                o.update_trial(t.trial_id, {"score": v}, step=st); steps.setdefault(st, []).append(fractions.Fraction(v))
+                o.update_trial(t.trial_id, {oname: v}, step=st); steps.setdefault(st, []).append(fractions.Fraction(v))
             means = [sum(vs) / len(vs) for vs in steps.values()]
             want[t.trial_id] = max(means) if mx else min(means)
             t.status = "COMPLETED"; o.end_trial(t)
         for i, w in want.items():
             got = o.trials[i].score
             if got is None or float(w) != float(got):
-                return "%s: trial %s reported %s; its score is %r, the best per-step mean is %s" % (direction, i, "several executions per step", got, w)
+                return "Objective(%r, %r): trial %s reported %s; its score is %r, the best per-step mean is %s" % (oname, direction, i, "several executions per step", got, w)
         n = rng.randint(1, len(want) + 1)
         ids = [t.trial_id for t in o.get_best_trials(n)]
         exp = [i for i, _ in sorted(want.items(), key=lambda kv: (-kv[1] if mx else kv[1], int(kv[0])))][:n]
@@ -123,6 +124,9 @@ Definition check (c : bool * nat * list T * list nat) : bool :=
 Definition cases : list (bool * nat * list T * list nat) := [
 """
 FOOTER = "\n].\nEval vm_compute in (map check cases).\n"
+
+
+OBJ_NAMES = ["score", "score", "val_loss", "val_accuracy", "loss", "accuracy", "val_mean_squared_error"]
 
 
 def sym_pair(ctx, cfg):
@@ -310,6 +314,8 @@ def run(ctx):
                 cfg["max_retries"] = 0
         if cfg["kind"] == "bayes" and j % 3 != 0:
             cfg["max_trials"] = rng.choice([4, 5, 6]); cfg["nsteps"] = 30
+        if rng.random() < 0.4:
+            cfg["obj"] = rng.choice(OBJ_NAMES[2:])
         msg, ha = sym_pair(ctx, cfg)
         stats["sym_pairs"] += 1
         stats["sym_by_kind"][cfg["kind"]] = stats["sym_by_kind"].get(cfg["kind"], 0) + 1
